@@ -42,6 +42,9 @@ type strIter struct {
 	s   string
 	pos int
 }
+// RawPtr is an unsafe.Pointer that does not point into the interpreted heap: an address handed out by the
+// simulated environment (mapped device memory). Only arithmetic and comparison are possible on it.
+type RawPtr struct{ addr *Term }
 type goPanic struct{ v Value }
 type abortPath struct{ why string }
 
@@ -608,6 +611,17 @@ func (in *Interp) builtin(b *ssa.Builtin, args []Value, c *ssa.CallCommon) Value
 			r = in.tb.Ite(lt, t, r)
 		}
 		return r
+	case "Add": // unsafe.Add
+		n := in.tb.Resize(args[1].(*Term), 64, true)
+		switch p := args[0].(type) {
+		case RawPtr:
+			return RawPtr{in.tb.BV("bvadd", p.addr, n)}
+		case Ptr:
+			if p.c == nil {
+				return RawPtr{n}
+			}
+		}
+		panic(abortPath{"unsupported: unsafe.Add on an interpreted object"})
 	case "Slice": // unsafe.Slice
 		p := args[0].(Ptr)
 		n := in.concInt(args[1].(*Term))
@@ -844,6 +858,20 @@ func (in *Interp) convert(v Value, from, to types.Type) Value {
 		tw, _ := widthOf(to)
 		return in.tb.Resize(v.(*Term), tw, fs)
 	}
+	if fok && tok && fb.Info()&types.IsFloat != 0 && tb.Info()&types.IsFloat != 0 {
+		return v
+	}
+	if fok && tok && fb.Info()&types.IsInteger != 0 && tb.Info()&types.IsFloat != 0 {
+		t := v.(*Term)
+		if t.IsConst() {
+			_, fs := widthOf(from)
+			if fs {
+				return float64(sext(t.val, t.w))
+			}
+			return float64(t.val)
+		}
+		panic(abortPath{"unsupported: symbolic integer to float conversion"})
+	}
 	// pointer <-> unsafe.Pointer
 	if _, ok := from.Underlying().(*types.Pointer); ok && tok && tb.Kind() == types.UnsafePointer {
 		return v
@@ -852,6 +880,9 @@ func (in *Interp) convert(v Value, from, to types.Type) Value {
 		return v
 	}
 	if fok && fb.Kind() == types.UnsafePointer && tok && tb.Kind() == types.Uintptr {
+		if rp, isRaw := v.(RawPtr); isRaw {
+			return rp.addr
+		}
 		p := v.(Ptr)
 		if p.c == nil {
 			return in.tb.Const(64, 0)
@@ -867,16 +898,16 @@ func (in *Interp) convert(v Value, from, to types.Type) Value {
 	}
 	if fok && fb.Kind() == types.Uintptr && tok && tb.Kind() == types.UnsafePointer {
 		t := v.(*Term)
-		a := t.val
 		if !t.IsConst() {
-			a = in.ex.concretize(t)
+			return RawPtr{t} // an address computed by the (simulated) environment, e.g. a mapped pointer
 		}
+		a := t.val
 		if a == 0 {
 			return Ptr{}
 		}
 		p, ok := in.ptrAt[a]
 		if !ok {
-			in.goPanicStr(fmt.Sprintf("uintptr->pointer of unknown address %#x", a))
+			return RawPtr{t}
 		}
 		return p
 	}
@@ -975,6 +1006,9 @@ func (in *Interp) binop(op token.Token, a, b Value, ta, tb types.Type) Value {
 			return in.tb.Cmp("bvule", y, x)
 		}
 	case Ptr:
+		if rp, isRaw := b.(RawPtr); isRaw {
+			return in.binop(op, rp, x, tb, ta)
+		}
 		switch op {
 		case token.EQL:
 			return in.tb.Bool(x == b.(Ptr))
@@ -1019,6 +1053,46 @@ func (in *Interp) binop(op token.Token, a, b Value, ta, tb types.Type) Value {
 			return in.tb.Bool(x < y)
 		case token.GTR:
 			return in.tb.Bool(x > y)
+		case token.LEQ:
+			return in.tb.Bool(x <= y)
+		case token.GEQ:
+			return in.tb.Bool(x >= y)
+		case token.EQL:
+			return in.tb.Bool(x == y)
+		case token.NEQ:
+			return in.tb.Bool(x != y)
+		case token.ADD:
+			return x + y
+		case token.SUB:
+			return x - y
+		case token.MUL:
+			return x * y
+		case token.QUO:
+			return x / y
+		}
+	case RawPtr:
+		var other *Term
+		switch y := b.(type) {
+		case RawPtr:
+			other = y.addr
+		case Ptr:
+			if y.c != nil {
+				switch op {
+				case token.EQL:
+					return in.tb.Bool(false)
+				case token.NEQ:
+					return in.tb.Bool(true)
+				}
+			}
+			other = in.tb.Const(64, 0)
+		}
+		if other != nil {
+			switch op {
+			case token.EQL:
+				return in.tb.Cmp("=", x.addr, other)
+			case token.NEQ:
+				return in.tb.Not(in.tb.Cmp("=", x.addr, other))
+			}
 		}
 	case nil:
 		switch op {
